@@ -130,13 +130,17 @@ var c11Leavers = [][]byte{
 	unhex("56 07 5b6e6f73756368 91 90"),    // 'V' typed list of the unregistered type
 	unhex("52 0002 6162 90"),               // a non-final string chunk followed by something that is not a chunk
 	unhex("58 92 52 0003 787878 4e"),       // the same inside a list
+	unhex("62 0001 61 42 0001 62"),         // (a valid message) a binary in the chunk tag of the draft, x62
+	unhex("79 62 0002 6162 20"),            // the same inside a list, the final chunk empty
 }
-var c11Pair = []int{0, 0, 1, 1, 2, 2, 0, 3, 3}
+var c11Pair = []int{0, 0, 1, 1, 2, 2, 0, 3, 3, 4, 4}
 var c11Sensitive = [][]byte{
 	unhex("58 92 72 04 5b696e74 90 91 73 90 92 93 94"), // the second typed list names its type by reference #0
 	unhex("60 91"), // instance of class #0, no definition in this message
 	unhex("51 90"), // reference #0, no container in this message
 	unhex("58 92 03 616263 52 0001 64 01 65"), // strings, one of them in two chunks: whatever is left of an earlier string shows
+	// three classes and one instance of each in the compact form: x62 is the instance of class #2 here
+	unhex("7b 43 03 4b3030 91 0161 60 91  43 03 4b3031 91 0161 61 0178  43 03 4b3032 91 0161 62 e1"),
 }
 
 func TestC11(t *testing.T) {
@@ -264,6 +268,8 @@ func TestC11(t *testing.T) {
 				}
 			}
 		}
+		// (the three classes of the last of c11Sensitive are always known)
+		tm["K00"], tm["K01"], tm["K02"] = reflect.TypeOf(zoo.K00{}), reflect.TypeOf(zoo.K01{}), reflect.TypeOf(zoo.K02{})
 		// an entry nobody needs, registered through a pointer type: the map is the caller's all the same
 		if rapid.IntRange(0, 3).Draw(rt, "pointerTypedEntry") == 0 {
 			tm["unused.PointerEntry"] = reflect.TypeOf(&zoo.Inner{})
